@@ -169,7 +169,9 @@ RolledBack == Walking => \A n \in NodesOf[mol] :
                  (pos[mol][n] = "built") <=> ((n = Root /\ NeedRoot) \/ n \in PlacedOk)
 \* an attempt starts from a system that holds nothing of an abandoned attempt
 AttemptClean == (mol <= NMol /\ pc \in {"idle", "begun"}) => \A n \in NodesOf[mol] : pos[mol][n] # "built"
-\* residues are only ever grown from an already positioned neighbour
+\* residues are only ever grown from an already positioned neighbour (numeric part, checked on every recorded placement by the
+\* harness monitor `anchored` and required by WalkTrace through ObsOK: the new position is one step from the position the
+\* neighbour has in the engine at that moment - not from one it had before a rewind took it back)
 GrowFromPositioned == (mol <= NMol /\ CanWalk /\ step <= Len(Path) /\ Build(mol, Path[step][2]))
                          => pos[mol][Path[step][1]] # "none"
 \* supplied coordinates are never discarded (C04)
